@@ -88,7 +88,35 @@ func (propC18) Gen(seed uint64, tier string, idx int) *Plan {
 		op.Deadline = rt + 20*time.Second
 	case "pause":
 		at := pickS(r, []string{"after-headers", "body"})
-		resp.Fault = &Fault{At: at, K: 1 + r.Pick(nChunks-1), Kind: "stall", For: rt * time.Duration(30+r.Pick(50)) / 100}
+		// any pause shorter than the read timeout must survive. What Olla sees between two reads is the
+		// pause plus at most 20 ms of latency jitter plus the next chunk's own delay (<= 30 ms), so
+		// pauses go up to (read timeout - 100 ms) and no closer
+		pause := rt * time.Duration(30+r.Pick(68)) / 100
+		if r.Chance(500) {
+			pause = rt * time.Duration(85+r.Pick(15)) / 100 // half of the pauses sit just below the timeout
+		}
+		if pause > rt-100*time.Millisecond {
+			pause = rt - 100*time.Millisecond
+		}
+		resp.Fault = &Fault{At: at, K: 1 + r.Pick(nChunks-1), Kind: "stall", For: pause}
+		// chunks before the pause arrive at all sorts of distances below the timeout, so that the pause
+		// starts at every phase of whatever timer bookkeeping the engine does; the chunk that ends the
+		// pause follows it immediately (its own delay would add to the silent period)
+		for i := range resp.Chunks {
+			resp.Chunks[i].Delay = pickS(r, []time.Duration{0, time.Millisecond, 30 * time.Millisecond, rt / 8, rt / 5, rt / 3})
+		}
+		if at == "body" && r.Chance(500) {
+			// phase sweep: one quiet stretch of 1..60 % of the timeout right before the pause, nothing else
+			for i := range resp.Chunks {
+				resp.Chunks[i].Delay = 0
+			}
+			resp.Chunks[resp.Fault.K-1].Delay = rt * time.Duration(1+r.Pick(60)) / 100
+		}
+		if at == "after-headers" {
+			resp.Chunks[0].Delay = 0
+		} else if resp.Fault.K < len(resp.Chunks) {
+			resp.Chunks[resp.Fault.K].Delay = 0
+		}
 	case "abort":
 		for i := range resp.Chunks {
 			resp.Chunks[i].Delay = time.Duration(50+r.Pick(300)) * time.Millisecond
